@@ -1,6 +1,6 @@
 from .. import facts
 from ..common import Report, finish
-from ..rules import gate
+from ..rules import gate, flags, c15
 
 RULE = ("the `is_some` flag of every inversion (inv, inv_mod, inv_odd_mod, inv_mod2k, invert and their _vartime twins, on "
         "Uint, Int, BoxedUint, the three Montgomery forms and the inverter objects) depends, in the label-flow summary, on "
@@ -13,7 +13,13 @@ def run(tier, t0):
     for cfg in ("all", "default"):
         f = facts.load(cfg)
         gate.run(f, rep, cfg, lambda b, fam: fam in INV, "c10.gate", "inversion_operations")
+        flags.run(f, rep, cfg, lambda b: c15.family(b.get("name")) in INV | {"gcd"})
+    stale = {}
+    for x in rep.stale:
+        stale.setdefault(x["key"], set()).add(x["config"])
+    rep.stale = sorted(k for k, v in stale.items() if len(v) == 2)
     rep.floor("inversion_operations", 36)
+    rep.floor("validity_flag_calls", 4)
     return finish(rep, tier, t0,
                   explanation="one structural necessary condition of C10: whether an inverse exists depends on both the value "
                               "and the modulus (for a fixed modulus some values are invertible and some are not, and vice "
